@@ -131,7 +131,7 @@ static inline size_t wb_idx(size_t i, size_t n) { WB_ASSERT(i < n, "vector index
   static inline void NAME##_resize(struct NAME *v, size_t cnt, T val)                                    \
   { WB_ASSERT(v->n == 0, "MODEL-BOUND resize() is modelled for an empty vector only");                   \
     WB_ASSERT(cnt <= WB_CAP_##NAME, "MODEL-BOUND vector capacity");                                      \
-    WB_ARRAY_SET(v->data, WB_CAP_##NAME, val); v->n = cnt; }                                             \
+    { struct NAME wb_t_; WB_ARRAY_SET(wb_t_.data, WB_CAP_##NAME, val); wb_t_.n = cnt; *v = wb_t_; } }  /* array_set on a stand-alone object: it runs to the end of the object */                                             \
   static inline struct NAME NAME##_new_fill(size_t cnt, T val)                                           \
   { struct NAME v; WB_ASSERT(cnt <= WB_CAP_##NAME, "MODEL-BOUND vector capacity");                       \
     WB_ARRAY_SET(v.data, WB_CAP_##NAME, val); v.n = cnt; return v; }
@@ -189,6 +189,18 @@ static inline struct wb_thread wb_thread_none(void) { struct wb_thread t = { 0, 
 static inline struct wb_thread wb_thread_launch(size_t a, size_t b) { struct wb_thread t = { 1, a, b }; WB_LAUNCH(a, b); return t; }
 static inline void wb_thread_join(struct wb_thread *t) { WB_ASSERT(t->joinable, "join of a joinable thread"); WB_JOIN(t); t->joinable = 0; }
 
+/* std::fill over a whole vector: all elements (the storage beyond size() is not observable) */
+#ifdef WB_NATIVE
+#define WB_FILL(v, val) do { for (size_t k_ = 0; k_ < (v).n; k_++) (v).data[k_] = (val); } while (0)
+#else
+/* (__CPROVER_array_set runs to the end of the enclosing object and would clobber the size and later members - measured - and
+ * reads of a set array at a symbolic index were not decided; hence explicit assignments, for capacities up to 16) */
+#define WB_FILL1(v, val, k) if (wb_c_ > (k)) (v).data[(k) < sizeof((v).data) / sizeof((v).data[0]) ? (k) : 0] = (val);
+#define WB_FILL(v, val) do { const size_t wb_c_ = sizeof((v).data) / sizeof((v).data[0]); \
+    __CPROVER_assert(wb_c_ <= 16, "MODEL-BOUND std::fill is modelled for capacities up to 16"); \
+    WB_FILL1(v, val, 0) WB_FILL1(v, val, 1) WB_FILL1(v, val, 2) WB_FILL1(v, val, 3) WB_FILL1(v, val, 4) WB_FILL1(v, val, 5) WB_FILL1(v, val, 6) WB_FILL1(v, val, 7) \
+    WB_FILL1(v, val, 8) WB_FILL1(v, val, 9) WB_FILL1(v, val, 10) WB_FILL1(v, val, 11) WB_FILL1(v, val, 12) WB_FILL1(v, val, 13) WB_FILL1(v, val, 14) WB_FILL1(v, val, 15) } while (0)
+#endif
 /* difference of two iterators of one container (element pointers).  CBMC's signed-overflow check flags a negative
  * difference of two pointers into the same object (measured: &data[2] - &data[3]); the difference is therefore taken on
  * the offsets, with the same-object condition as an obligation */
